@@ -5,7 +5,7 @@ import Driver.C20
 /-! Driver channel `c19` — see `harness/src/c19.rs` for the op-line grammar. -/
 namespace Driver.C19
 open Rustic.Backends Rustic.Cache Driver
-open Driver.C20 (dataOf digest tpeOf joinOr sortStrs fmtListing layout goodPath)
+open Driver.C20 (dataOf digest tpeOf joinOr sortStrs fmtListing goodPath)
 
 def L : Nat := Rustic.Gen.ID_HEX_LEN
 
@@ -27,11 +27,38 @@ def idOf (s : String) : Option Name :=
 def tIdx : FileType → Nat
   | .config => 0 | .index => 1 | .key => 2 | .snapshot => 3 | .pack => 4
 
+/-- `dirs`: every path known to be a directory of the cache dir (planted with `m`, or a parent made for a plant) -/
 structure D where
   be : BeL
   cache : FS
+  dirs : List Path := []
+  /-- symlinks: dangling (`none`: target in a directory that does not exist) or to a regular file outside the cache dir -/
+  links : List (Path × Option Bytes) := []
 
-def D.st (d : D) : St := { be := fun k => bget d.be k, cache := d.cache }
+def D.st (d : D) : St := { be := fun k => bget d.be k, cache := { files := d.cache, links := d.links }, dirs := d.dirs }
+
+/-- something that is not a directory sits at `r` (a regular file or a dangling symlink): nothing can be created below -/
+def D.nonDirAt (d : D) (r : Path) : Bool := (fget d.cache r).isSome || (lget d.links r).isSome
+
+def pathOf (p : String) : Path := (p.splitOn "/").map String.toList
+
+/-- the non-empty proper prefixes of a path (its parent directories), shortest first -/
+def parents (p : Path) : List Path := (List.range p.length).filterMap (fun n => if n = 0 then none else some (p.take n))
+
+def addDirs (dirs : List Path) (ps : List Path) : List Path := ps.foldl (fun acc q => if acc.contains q then acc else acc ++ [q]) dirs
+
+/-- the cache directory after a model step -/
+def D.withCache (d : D) (c : CD) : D :=
+  -- `create_dir_all(<type>/<xx>)`: the parents of every new file are directories now (and stay)
+  let fresh := c.files.filter (fun e => (fget d.cache e.1).isNone)
+  { d with cache := c.files, links := c.links, dirs := addDirs d.dirs (fresh.flatMap (fun e => parents e.1)) }
+
+/-- regular files `path:size`, and the directories at depth ≥ 3 (those only plants create) as `path/` -/
+def layoutC (d : D) : String :=
+  joinOr (d.cache.map (fun e => "/".intercalate (e.1.map String.ofList) ++ ":" ++ toString e.2.length)
+    ++ (d.dirs.filter (fun q => q.length ≥ 3)).map (fun q => "/".intercalate (q.map String.ofList) ++ "/")
+    ++ d.links.map (fun e => "/".intercalate (e.1.map String.ofList) ++ "@" ++
+        (match e.2 with | some b => toString b.length | none => "")))
 
 def resStr : Res Bytes → String
   | .ok b => digest b
@@ -44,7 +71,7 @@ def stepOne (d : D) (s : String) : Option (String × D) :=
     | some t, some id, some x =>
       if h = "c" then
         let s' := writeBytes d.st t id (cb = "1") x
-        some ("ok", { be := bput d.be (t, id) x, cache := s'.cache })
+        some ("ok", { d.withCache s'.cache with be := bput d.be (t, id) x })
       else if h = "u" then some ("ok", { d with be := bput d.be (t, id) x })
       else none
     | _, _, _ => none
@@ -53,7 +80,7 @@ def stepOne (d : D) (s : String) : Option (String × D) :=
     | some t, some id =>
       if h = "c" then
         let s' := remove d.st t id (cb = "1")
-        some ("ok", { be := bdel d.be (t, id), cache := s'.cache })
+        some ("ok", { d.withCache s'.cache with be := bdel d.be (t, id) })
       else if h = "u" then some ("ok", { d with be := bdel d.be (t, id) })
       else none
     | _, _ => none
@@ -62,7 +89,7 @@ def stepOne (d : D) (s : String) : Option (String × D) :=
     | some t, some id =>
       if h = "c" then
         let (r, s') := readFull d.st t id
-        some (resStr r, { d with cache := s'.cache })
+        some (resStr r, d.withCache s'.cache)
       else if h = "u" then some (resStr (beReadFull d.st.be t id), d)
       else none
     | _, _ => none
@@ -72,7 +99,7 @@ def stepOne (d : D) (s : String) : Option (String × D) :=
       if off ≥ 4294967296 ∨ len ≥ 4294967296 then none else
       if h = "c" then
         let (r, s') := readPartial d.st t id (cb = "1") off len
-        some (resStr r, { d with cache := s'.cache })
+        some (resStr r, d.withCache s'.cache)
       else if h = "u" then some (resStr (beReadPartial d.st.be t id off len), d)
       else none
     | _, _, _, _ => none
@@ -82,16 +109,50 @@ def stepOne (d : D) (s : String) : Option (String × D) :=
       let list := blist d.be t
       if h = "c" then
         let s' := listWithSize L d.st t list
-        some (fmtListing list, { d with cache := s'.cache })
+        some (fmtListing list, d.withCache s'.cache)
       else if h = "u" then some (fmtListing list, d)
       else none
     | none => none
   | ["s", p, data] =>
     if !goodPath p then none else
-    (dataOf data).map (fun x => ("ok", { d with cache := fput d.cache ((p.splitOn "/").map String.toList) x }))
+    (dataOf data).map (fun x =>
+      let q := pathOf p
+      -- `create_dir_all(parent)` then `fs::write`: fails on a directory, through a dangling symlink, and below a non-directory
+      if hasDir d.dirs q || lget d.links q == some none || (parents q).any d.nonDirAt then ("err", d)
+      else if (lget d.links q).isSome then ("ok", { d with links := (q, some x) :: ldel d.links q })   -- written through the link
+      else ("ok", { d with cache := fput d.cache q x, dirs := addDirs d.dirs (parents q) }))
+  | ["m", p] =>
+    if !goodPath p then none else
+    let q := pathOf p
+    -- `create_dir_all`: fails when the path or one of its parents is a regular file or a dangling symlink
+    if d.nonDirAt q || (parents q).any d.nonDirAt then some ("err", d)
+    else some ("ok", { d with dirs := addDirs d.dirs (parents q ++ [q]) })
+  | ["k", p] =>
+    if !goodPath p then none else
+    let q := pathOf p
+    -- `create_dir_all(parent)` then `symlink`: fails when anything is at the path, or a parent is not a directory
+    if d.nonDirAt q || hasDir d.dirs q || (parents q).any d.nonDirAt then some ("err", d)
+    else some ("ok", { d with links := d.links ++ [(q, none)], dirs := addDirs d.dirs (parents q) })
+  | ["y", p, data] =>
+    if !goodPath p then none else
+    (dataOf data).map (fun x =>
+      let q := pathOf p
+      -- a symlink to a fresh regular file (outside the cache dir) holding `x`
+      if d.nonDirAt q || hasDir d.dirs q || (parents q).any d.nonDirAt then ("err", d)
+      else ("ok", { d with links := d.links ++ [(q, some x)], dirs := addDirs d.dirs (parents q) }))
+  | ["t", p, n] =>
+    if !goodPath p then none else
+    match n.toNat? with
+    | none => none
+    | some n =>
+      let q := pathOf p
+      match (if hasDir d.dirs q || (lget d.links q).isSome then none else fget d.cache q) with
+      | some x => some ("ok", if n < x.length then { d with cache := fput d.cache q (x.take n) } else d)
+      | none => some ("ok", d)
   | ["x", p] =>
-    if !goodPath p then none else some ("ok", { d with cache := fdel d.cache ((p.splitOn "/").map String.toList) })
-  | ["f"] => some (layout d.cache, d)
+    if !goodPath p then none else
+    some ("ok", { d with cache := fdel d.cache (pathOf p), links := ldel d.links (pathOf p) })
+  | ["f"] => some (layoutC d, d)
   | ["b"] =>
     some (joinOr (d.be.map (fun e => toString (tIdx e.1.1) ++ "/" ++ String.ofList e.1.2 ++ ":" ++ digest e.2)), d)
   | _ => none
